@@ -73,6 +73,9 @@ func RunPar(seed int64, p ParProfile) (out []Ev) {
 			out = w.T.Finish()
 		}
 	}()
+	if seed%2 == 1 {
+		w.WideCols["a"], w.WideCols["y"] = true, true // values and deltas of more than 32 bits (a: by its kind; y: a record)
+	}
 	P := w.NewColl("P", 64, "log", 0)
 	for _, d := range p.Cols {
 		P.CreateColumn(d)
